@@ -452,6 +452,7 @@ def replay(data):
     if data['mode'] == 'launcher': return replay_launcher(data)
     if data['mode'] == 'logic': return replay_logic(data)
     if data['mode'] == 'wave': return replay_wave(data)
+    if data['mode'] == 'glue': return wsim.replay(data)
     return False, 'lane interference is reported from the solver model only'
 
 
@@ -462,6 +463,9 @@ def dispatch(job):
 def run(tier, seed):
     J = [('wave', j) for j in wave_jobs(tier)] + [('logic', j) for j in logic_corpus(tier, seed)]
     rep = common.pmap(dispatch, J, chunksize=1)
+    # memory re-use with per-line capacities of mixed sizes: the memory-map obligations (no two simultaneously live signals overlap) that make
+    # c_reuse invisible at the ports - the product runs above use uniform capacities
+    rep.merge(common.pmap(wsim.glue_job, wsim.glue_jobs(tier, seed), chunksize=4))
     launcher_check(rep)
     cov = {
         'states': int(rep.counts['paths']), 'transitions': int(rep.counts['branches']) + int(rep.counts['ops']), 'traces_validated_against_impl': len(rep.violations),
